@@ -18,6 +18,8 @@ def main():
             engineio.__file__, src)]}
     else:
         mod = importlib.import_module('vf.checks.' + cid.lower())
+        from vf import scen
+        scen.start_stall_watch(rf, cid)
         with open(sf) as f:
             spec = json.load(f)
         try:
